@@ -413,8 +413,7 @@ class Circuit(object):
         # print "Circuit.update:",args
         if self.id is None:
             self.id = int(args[0])
-            for x in self.listeners:
-                x.circuit_new(self)
+            self._notify('circuit_new', self)
 
         else:
             if int(args[0]) != self.id:
@@ -430,16 +429,14 @@ class Circuit(object):
 
         if self.state == 'LAUNCHED':
             self.path = []
-            for x in self.listeners:
-                x.circuit_launched(self)
+            self._notify('circuit_launched', self)
         else:
             if self.state != 'FAILED' and self.state != 'CLOSED':
                 if len(args) > 2:
                     self.update_path(args[2].split(','))
 
         if self.state == 'BUILT':
-            for x in self.listeners:
-                x.circuit_built(self)
+            self._notify('circuit_built', self)
             self._when_built.fire(self)
 
         elif self.state == 'CLOSED':
@@ -458,8 +455,7 @@ class Circuit(object):
                 )
             flags = self._create_flags(kw)
             self.maybe_call_closing_deferred()
-            for x in self.listeners:
-                x.circuit_closed(self, **flags)
+            self._notify('circuit_closed', self, **flags)
 
         elif self.state == 'FAILED':
             if len(self.streams) > 0:
@@ -467,8 +463,20 @@ class Circuit(object):
                                      (self.state, len(self.streams))))
             flags = self._create_flags(kw)
             self.maybe_call_closing_deferred()
-            for x in self.listeners:
-                x.circuit_failed(self, **flags)
+            self._notify('circuit_failed', self, **flags)
+
+    def _notify(self, func, *args, **kw):
+        """
+        Internal helper. Calls the ICircuitListener function 'func' with
+        the given args, guarding around errors (as Stream does): a
+        listener that raises must not keep the other listeners, the
+        rest of the update or the built/closed waiters from running.
+        """
+        for x in self.listeners:
+            try:
+                getattr(x, func)(*args, **kw)
+            except Exception:
+                log.err()
 
     def maybe_call_closing_deferred(self):
         """
@@ -509,8 +517,7 @@ class Circuit(object):
             self.path.append(router)
             # if the path grew, notify listeners
             if len(self.path) > oldpath_len:
-                for x in self.listeners:
-                    x.circuit_extend(self, router)
+                self._notify('circuit_extend', self, router)
                 oldpath_len = len(self.path)
 
     def __str__(self):
